@@ -400,18 +400,50 @@ def rule_e_inflight(chk, prog):
         else:
             chk.violation("K11-inflight", "enqueue_block:config", copies[0], "the in-flight copy is not tied to the byte-compare configuration")
     # frees of in-flight elements
+    def ptr_roots(p):
+        seen, st, out = set(), [strip_casts(p)], []
+        while st:
+            q = st.pop()
+            if q.id in seen:
+                continue
+            seen.add(q.id)
+            if q.is_inst and q.op in ("phi", "select"):
+                st.extend(strip_casts(o) for o in (q.ops if q.op == "phi" else q.ops[1:]))
+            else:
+                out.append(q)
+        return out
+
+    def list_fields(v):
+        """fields of every load behind v, also where the loaded-from pointer is a cursor (pointer-to-link phi)"""
+        out = {nm for (_s, nm) in fields_in_slice(v)}
+        for x in backward_slice(v):
+            if x.is_inst and x.op == "load":
+                for r in ptr_roots(x.ops[0]):
+                    if r.is_inst and r.op == "getelementptr":
+                        out |= {nm for (_s, nm) in r.fields()}
+        return out
+
+    def writes_block(h):
+        return [x for x in h.calls() if slot_call(x) == ("struct.sqfs_block_writer_t", "write_data_block")]
     n = 0
     for g_ in prog.functions():
         if not g_.unit.src.startswith("lib/sqfs/src/block_processor/"):
             continue
         for c in g_.calls("free"):
             v = strip_casts(c.ops[0])
-            src = {nm for (_s, nm) in fields_in_slice(v)}
+            src = list_fields(v)
             if "fblk_in_flight" in src and not g_.name.endswith("destroy"):
                 n += 1
-                wr = [x for x in g_.calls() if slot_call(x) == ("struct.sqfs_block_writer_t", "write_data_block")]
+                wr = writes_block(g_)
+                where = "freed in the function that writes the block to disk"
+                if not wr:
+                    # a static helper whose every caller is the function that writes the block
+                    callers = [ci.fn for ci in prog.callers_of(g_)] if g_.internal else []
+                    if callers and all(writes_block(h) for h in callers):
+                        wr = True
+                        where = "freed in a static helper called only from the function that writes the block to disk"
                 if wr:
-                    chk.ok("K2-inflight-free", "%s:free" % g_.name, c, "freed in the function that writes the block to disk")
+                    chk.ok("K2-inflight-free", "%s:free" % g_.name, c, where)
                 else:
                     chk.violation("K2-inflight-free", "%s:free" % g_.name, c, "an in-flight fragment block copy is freed outside the "
                                   "function that puts the block on disk")
@@ -661,6 +693,11 @@ def rule_g_truncate(chk, prog):
             used_loads = [x for x in sl if x.is_inst and x.op == "load" and _fld(x.ops[0]) == "used" and
                           used_stores and all(f.inst_dominates(s_, x) or not f.reaches(x.bb, s_.bb) for s_ in used_stores) and
                           any(f.inst_dominates(s_, x) or f.reaches(s_.bb, x.bb) for s_ in used_stores)]
+            if not used_loads and len(used_stores) == 1 and f.inst_dominates(used_stores[0], c):
+                # the very value that was stored as the new count (a local that is both stored and used as the index)
+                sv = strip_casts(used_stores[0].ops[0])
+                if not sv.is_const:
+                    used_loads = [x for x in sl if x is sv]
             offs = [x for x in sl if x.is_inst and x.op == "load" and _fld(x.ops[0]) == "offset"]
             sizes = [x for x in sl if x.is_inst and x.op == "load" and _fld(x.ops[0]) == "hash"]
             if used_loads and offs and sizes:
@@ -713,7 +750,7 @@ def run(chk):
     chk.floor("K13-compare", 2)
     chk.floor("K-dedup-exit", 3)
     chk.floor("K13-dedup-args", 1)
-    chk.floor("K-frag-true", 3)
+    chk.floor("K-frag-true", 2)      # one memcmp result + at least one configured-off return (merged tests count once)
     chk.floor("K-frag-ctx", 2)
     chk.floor("K5-frag-err", 2)
     chk.floor("K11-inflight", 2)
